@@ -531,6 +531,21 @@ def SObj.defineX (o : SObj) (name : List Nat) : Res :=
     | some chr => if U (encodeRune chr) = [120] then .str [120] else .throwType   -- sameValue(string(chr), "x")
     | none => .str [120]
 
+/-- "zzz": what the harness's replacement `String.prototype.toString = function(){return "zzz"}` returns -/
+def sZZZ : List Nat := [122, 122, 122]
+
+/-- the `this` of `r.m(…)` when String.prototype.toString has been replaced by a function returning `t`: the member
+    expression boxes a primitive string (cmpl_evaluate_expression.go), the call passes that wrapper, and
+    `call.This.string()` of a String OBJECT goes through DefaultValue → the replaced toString.  A String object
+    receiver is converted the same way.  `none` = TypeError (undefined / null base) -/
+def memberThisOverridden (E : Env) (t : List Nat) : Recv → Option Recv
+  | .val .undef => none
+  | .val .null => none
+  | .val (.str _) => some (.obj t)         -- boxed, then converted through the replaced toString
+  | .val16 _ => some (.obj t)
+  | .strObj _ => some (.obj t)
+  | r => memberThis E r
+
 /-- the string a receiver of these observers wraps -/
 def recvString (E : Env) : Recv → List Nat := thisString E
 
